@@ -496,9 +496,17 @@ def finish(ctx, spec, proof):
         families=fams, timing_s=ctx.timing,
         known_findings_reported=ctx.known,
     )
-    for k in ('exhaustive', 'extra'):
-        if k in ctx.cov:
-            coverage[k] = ctx.cov[k]
+    if 'extra' in ctx.cov:
+        coverage['extra'] = ctx.cov['extra']
+    if 'exhaustive' in ctx.cov:
+        # the schema wants a boolean under `exhaustive` (true only when the whole run enumerated a finite space);
+        # the sub-spaces a check enumerated completely are listed under `exhaustive_parts`
+        ex = ctx.cov['exhaustive']
+        if isinstance(ex, bool):
+            coverage['exhaustive'] = ex
+        else:
+            coverage['exhaustive'] = False
+            coverage['exhaustive_parts'] = ex
     ev = dict(property_id=ctx.prop, tier=ctx.tier, seed=ctx.seed, level=spec.get('level', 'proof'),
               coverage=coverage, assumptions=spec.get('assumptions', []), wall_s=wall, violations=violations)
     if proof.get('obligations', 0) != proof.get('discharged', 0) or proof.get('obligations', 0) == 0:
